@@ -244,3 +244,14 @@ theorem cmpEs_pre : (es : Entries) → (fs : Entries) → (p q : Path) →
           simp only [List.isEmpty_cons, nodesL_cons, List.map_append, true_and]
           rw [ht.2, hr.2]
 end
+
+theorem addSel_nil_right (p : Path) (fs : Entries) : addSel p fs [] = addEs p fs := by
+  induction fs with
+  | nil => simp [addSel, addEs]
+  | cons a r ih => obtain ⟨k, t⟩ := a; simp [addSel, addEs, ih]
+
+theorem remSel_nil_right (p : Path) (es : Entries) : remSel p es [] = remEs p es := by
+  induction es with
+  | nil => simp [remSel, remEs]
+  | cons a r ih => obtain ⟨k, t⟩ := a; simp [remSel, remEs, ih]
+
